@@ -4,8 +4,8 @@
 translate:  tools/translate/typerank.py (enum ValueType::Type order -> TypeConv/Gen_TypeRank.v),
             tools/translate/platforms.py (Platform::set + platforms/*.xml -> Lit/Gen_Platforms.v)
 prove:      coq/theories/Properties_C09.v (setValueType's result type = ISO C under strictly increasing
-            widths; refutations with witnesses on the shipped platforms; every deviation on the shipped
-            platforms has one of four named causes)
+            widths; refutations with witnesses on the shipped platforms; integer-literal types = ISO C 6.4.4.1 for all platforms and values;
+            every deviation on the shipped platforms has one of five named causes)
 correspond: generated typed expressions (all operand type pairs x operators x platforms x C/C++) through
             `cppcheck --dump --platform=P`: valueType of the operator token vs the extracted model applied to
             the operand types the dump reports; integer literals vs the literal-type model; enumerator values
@@ -213,9 +213,9 @@ def typed_expressions(run, model, wd, pname, cpp, ops):
 
 
 def lit_parts(s):
-    """spelling -> (dec, usfx, lcount) as setValueTypeInTokenList reads them (dec = MathLib::isDec, true for octal spellings too)"""
+    """spelling -> (dec, usfx, lcount) as setValueTypeInTokenList reads them (dec = MathLib::isDec && !MathLib::isOct)"""
     low = s.lower()
-    dec = not (low.startswith(b"0x") or low.startswith(b"0b"))
+    dec = not (low.startswith(b"0x") or low.startswith(b"0b") or (low.startswith(b"0") and low[1:2].isdigit()))
     body = low[2:] if low[:2] in (b"0x", b"0b") else low
     sfx = body.lstrip(b"0123456789abcdef") if low[:2] == b"0x" else body.lstrip(b"0123456789")
     return dec, b"u" in sfx, sfx.count(b"l") + (2 if b"i64" in sfx else 0)
@@ -288,7 +288,7 @@ def literals(run, model, wd, p, rng, quick):
         run.count("literal-type-spec", None, nontrivial=(pname, text), bucket="%s,%s" % (pname, "ok" if want == have else "nofit" if want is None else "diff"))
         if want is not None and want != have:
             dec, usfx, lc = lit_parts(l[0])
-            key = "nondecimal-literal-typed-too-narrow" if not dec else "octal-literal-typed-as-decimal" if l[2] == 8 else "spec:lit:%s:%s" % (pname, text)
+            key = "spec:lit:%s:%s" % (pname, text)
             run.violation(key, "literal %s on %s: cppcheck types it %s %s, ISO C 6.4.4.1 says %s" % (text, pname, impl[1], impl[0], CT[want]),
                           dict(where, cppcheck_type="%s %s" % (impl[1], impl[0]), language_type=CT[want]))
 
